@@ -249,7 +249,9 @@ def step (s : Sys) : Label → Option Sys
   | .apiOpen =>
     let c := s.core.emit (.apiOpen s.core.now)
     if c.isOpen then some (spawnApi s ⟨c, .finished, []⟩)
-    else some (spawnApi s ⟨{ c with isOpen := true }, .finished, [.connStart]⟩)
+    -- `self._message_queue.clear()`: what an earlier session left in the queue (entries still waiting when `close()`
+    -- ran, or put back by a sender's retry path after `close()` had returned) is discarded without a log record
+    else some (spawnApi s ⟨{ c with isOpen := true, queue := [] }, .finished, [.connStart]⟩)
   | .apiClose =>
     let c := s.core.emit (.apiClose s.core.now)
     if !c.isOpen then some (spawnApi s ⟨c.emit (.apiCloseDone c.now), .finished, []⟩)
